@@ -5,7 +5,7 @@ import itertools
 import numpy as np
 from scipy.special import ndtr, ndtri
 
-from vmon import interpose, mv, stats
+from vmon import interpose, mv, stats, uni
 from vmon.core import EPS32, exc_detail, exc_mech, rng_for
 from vmon.refs import mvn
 
@@ -151,8 +151,9 @@ def run_case(spec, ctx):
             M = np.zeros((nf, nf), dtype=bool)
             for a, j in enumerate(free):
                 u = model.univariates[j]
+                ref_ppf = uni.reference_percent_point(u)
                 for k in range(nf):
-                    want = np.asarray(u.percent_point(ndtr(Z[:, k])), dtype=float)
+                    want = np.asarray(ref_ppf(ndtr(Z[:, k])), dtype=float)
                     M[a, k] = np.allclose(V[:, j], want, rtol=1e-12, atol=0, equal_nan=True)
             from scipy.optimize import linear_sum_assignment
             rows, colsk = linear_sum_assignment(~M)
